@@ -402,7 +402,10 @@ func runExtract(c *Case, r *mon.Rec, fr specref.Framing, rng *rand.Rand) {
 			resp = libx.ValueForm(resp) // callers hold responses by value as well as by pointer
 		}
 		vals, xerr := rq.ExtractFields(resp, true)
-		r.Eval(len(vals))
+		r.Eval(len(vals) + 1)
+		if len(vals) != len(rq.Fields) {
+			r.Violate(c, "extract-refuses-response", mon.Attrs{"fn": "ExtractFields", "value_form": c.Seed%2 == 0}, fmt.Sprintf("%T handed to ExtractFields of the request it answers: %d values for %d fields, error %v", resp, len(vals), len(rq.Fields), xerr))
+		}
 		wrong, rev := 0, true
 		for _, fv := range vals {
 			if fv.Error != nil {
